@@ -12,6 +12,9 @@
 #include <memory>
 #include <new>
 #include <stdexcept>
+#include <unistd.h>
+
+#include <valgrind/memcheck.h>
 
 #include "../model/model.hpp"
 #include "../seams/sim_alloc.hpp"
@@ -992,6 +995,16 @@ struct World {
             cnt.inc("op.noop");
         }
         check_all(opi, op, src_slot);
+        if (RUNNING_ON_VALGRIND) {
+            // memcheck pass (C15 thorough/quick sample): attribute its reports to the operation
+            static unsigned vg_errors = 0;
+            unsigned e = VALGRIND_COUNT_ERRORS;
+            if (e != vg_errors) {
+                vg_errors = e;
+                int pst = op.stack >= 0 ? op.stack : A.stack;
+                violate(opi, "memcheck", pst, name, "valgrind memcheck reported an error during this operation (uninitialised value used, or invalid access)");
+            }
+        }
     }
 
     void finish()
@@ -1575,9 +1588,17 @@ int main(int argc, char **argv)
         if (rr.ok)
             std::printf("RUN %llu %llu %016llx %016llx %d ok\n", (unsigned long long)i, (unsigned long long)rs, (unsigned long long)rr.obs,
                         (unsigned long long)rr.caseh, rr.nontrivial ? 1 : 0);
-        else
+        else {
             std::printf("RUN %llu %llu - - 0 VIOL key=%s op=%d :: %s\n", (unsigned long long)i, (unsigned long long)rs, rr.v.key.c_str(), rr.v.op,
                         rr.v.detail.c_str());
+            // A run that violated the model may have damaged this process's heap; nothing
+            // may be carried into the next run, so the next run gets a fresh process.
+            cnt.inc("steps", steps);
+            std::printf("STATS %s\n", cnt.json().c_str());
+            std::printf("RESTART\n");
+            std::fflush(stdout);
+            _exit(0);
+        }
     }
     cnt.inc("steps", steps);
     std::printf("STATS %s\n", cnt.json().c_str());
